@@ -381,6 +381,15 @@ Proof.
   cbv zeta. auto 10.
 Qed.
 
+(** ... and the method the facts speak about is the method of the request the flow holds (the request
+    is only ever taken out in Redirect, by [as_new_flow]). *)
+Theorem c09_hist_method : forall ops t f r,
+  admissible s_init ops -> s_obj (run_ops s_init ops) = ObFlow t f ->
+  am_req (c_req (i_call f)) = Some r -> rq_method r = hs_method (hist_of ops).
+Proof.
+  intros ops t f r Ha Ho Hr. destruct (hist_flow ops t f Ha Ho) as (_ & _ & _ & H4 & _). exact (H4 r Hr).
+Qed.
+
 (** The successor theorem on histories: whenever [proceed] reports a new state after an admissible
     history, it is [graph_successor] of the state it was in and the facts of the history, and the
     flow satisfies the invariant of the new state. *)
@@ -564,6 +573,31 @@ Proof.
   eexists _, _. split; vm_compute; reflexivity.
 Qed.
 
+(* ------------------------------------------------------------------ the parser-level tests of the history facts, on the wire *)
+(** [hs_refused] uses C10's [refusal_seen] (wire reading: [c10_refusal_wire] in props/C10.v).  The two
+    tests behind [hs_cleared], for streams that begin with a well-formed head (grammar of
+    proofs/C05_spec.v): [try_read_100] decides exactly from C11's decision point on; [try_response]
+    sees "a 100" exactly when the complete head has status 100 and no field line. *)
+From Hoot.proofs Require Import C05_spec C10_wire C09_hist_wire.
+
+Theorem c09_decided_wire : forall h rest n,
+  wf_resp_head h ->
+  decided (take n (render_response_head h ++ rest)) = (C11_proofs.decision_point h <=? n).
+Proof. exact decided_exact. Qed.
+
+Theorem c09_sees_100_wire : forall h rest,
+  wf_resp_head h -> (List.length (rh_fields h) <= 128)%nat ->
+  sees_100 (render_response_head h ++ rest) = (rh_status h =? 100) && C10_wire.is_nil (rh_fields h).
+Proof. exact sees_100_complete. Qed.
+
+Example c09_wire_tests_nonvacuous :
+  wf_resp_head h_403_close /\ C11_proofs.decision_point h_403_close = 43 /\
+  decided (take 42 (render_response_head h_403_close ++ s2b "x")) = false /\
+  decided (take 43 (render_response_head h_403_close ++ s2b "x")) = true /\
+  sees_100 (render_response_head h_403_close ++ s2b "x") = false /\
+  sees_100 (s2b "HTTP/1.1 100 Continue" ++ CRLF ++ CRLF ++ s2b "HTTP/1.1 200 OK") = true.
+Proof. split; [exact wf_h_403_close|]. vm_compute. repeat split; reflexivity. Qed.
+
 Print Assumptions c09_new_total.
 Print Assumptions c09_new.
 Print Assumptions c09_header.
@@ -614,3 +648,7 @@ Print Assumptions c09_admissible2.
 Print Assumptions c09_successor_hist2.
 Print Assumptions c09_history2_nonvacuous.
 Print Assumptions c09_raw_then_tracked_panics.
+Print Assumptions c09_decided_wire.
+Print Assumptions c09_sees_100_wire.
+Print Assumptions c09_wire_tests_nonvacuous.
+Print Assumptions c09_hist_method.
